@@ -42,13 +42,14 @@ func goMap(s *tree.SNode, c *tree.Cont) map[string]interface{} {
 	return m
 }
 
-var c18Kinds = []string{"reference store", "nodeutil.Reflect over maps/slices", "nodeutil.Node over maps/slices"}
+var c18Kinds = []string{"reference store", "nodeutil.Reflect over maps/slices", "nodeutil.Reflect over Go structs (slices of struct values and pointers)", "nodeutil.Node over Go structs"}
 
 type c18Target struct {
-	kind int
-	m    *meta.Module
-	root *tree.SNode
-	b    *node.Browser
+	kind    int
+	m       *meta.Module
+	root    *tree.SNode
+	b       *node.Browser
+	struct_ bool // struct-backed: zero-valued leaves stand for unset
 }
 
 func newC18Target(kind int, m *meta.Module, root *tree.SNode, init *tree.Cont) *c18Target {
@@ -73,6 +74,9 @@ func (t *c18Target) export() (c *tree.Cont, err error) {
 	}()
 	c = tree.NewCont()
 	err = t.b.Root().UpsertInto(c.Node(t.root, nil, ""))
+	if err == nil && t.struct_ {
+		dropZero(t.root, c)
+	}
 	return
 }
 
@@ -133,7 +137,7 @@ func C18(ctx *core.Ctx) error {
 			}
 		}
 	}
-	return nil
+	return c18StructHistories(ctx, r.Fork(9090), ctx.Scale(14, 300))
 }
 
 // c18Step picks and runs one operation; returns false when the history cannot continue
@@ -160,7 +164,13 @@ func c18Step(ctx *core.Ctx, r *gen.Rng, t *c18Target, yang string, universe, bef
 			}
 		}
 	}
-	opName := gen.Pick(r, []string{"upsert", "upsert", "delete-kid", "delete-row", "delete-row", "replace-kid", "replace-row", "insert-rows", "insert-rows"})
+	opName := gen.Pick(r, []string{"upsert", "upsert", "delete-kid", "delete-row", "delete-row", "delete-walk", "delete-walk", "replace-kid", "replace-row", "insert-rows", "insert-rows"})
+	fix := func(s *tree.SNode, c *tree.Cont) {
+		if t.struct_ {
+			nonZero(s, c)
+			dedupRows(s, c)
+		}
+	}
 	var opTerm, opDesc string
 	var run func() error
 	removedPath := ""
@@ -175,6 +185,53 @@ func c18Step(ctx *core.Ctx, r *gen.Rng, t *c18Target, yang string, universe, bef
 				return fmt.Errorf("harness: cannot find %s: %v", c.name, err)
 			}
 			return sel.Delete()
+		}
+	case opName == "delete-walk" && len(rowLists) > 0:
+		// walk the list with First()/Next(), collect some entries, then Delete() each of them: every
+		// delete goes through the SAME list node (the pattern a caller pruning a list uses)
+		c := gen.Pick(r, rowLists)
+		rows := before.Lists[c.name].Rows
+		pick := map[int]bool{}
+		for i := range rows {
+			if r.Chance(1, 2) {
+				pick[i] = true
+			}
+		}
+		if len(pick) == 0 {
+			pick[0] = true
+		}
+		var keyTerms []string
+		var keyDescs []string
+		for i, row := range rows {
+			if pick[i] {
+				keyTerms = append(keyTerms, keyTermOf(c.kid, row))
+				keyDescs = append(keyDescs, row.Desc(c.kid))
+			}
+		}
+		opTerm = emit.App("OpDeleteRows", emit.Nat(c.idx), emit.List(keyTerms))
+		opDesc = fmt.Sprintf("walk %s with First/Next, then Delete() entries %v", c.name, keyDescs)
+		run = func() error {
+			sel, err := t.b.Root().Find(c.name)
+			if err != nil || sel == nil {
+				return fmt.Errorf("harness: cannot find %s: %v", c.name, err)
+			}
+			var doomed []*node.Selection
+			item, err := sel.First()
+			for i := 0; err == nil && item.Selection != nil; i++ {
+				if pick[i] {
+					doomed = append(doomed, item.Selection)
+				}
+				item, err = item.Next()
+			}
+			if err != nil {
+				return err
+			}
+			for _, d := range doomed {
+				if err := d.Delete(); err != nil {
+					return err
+				}
+			}
+			return nil
 		}
 	case (opName == "delete-row" || opName == "replace-row") && len(rowLists) > 0:
 		c := gen.Pick(r, rowLists)
@@ -196,6 +253,7 @@ func c18Step(ctx *core.Ctx, r *gen.Rng, t *c18Target, yang string, universe, bef
 			}
 		} else {
 			nrow := tree.GenData(r, c.kid, 70, 2)
+			fix(c.kid, nrow)
 			for _, k := range c.kid.Keys {
 				nrow.Leaves[c.kid.Kids[k].Name] = row.Leaves[c.kid.Kids[k].Name]
 			}
@@ -213,6 +271,7 @@ func c18Step(ctx *core.Ctx, r *gen.Rng, t *c18Target, yang string, universe, bef
 		c := gen.Pick(r, conts)
 		src := tree.NewCont()
 		src.Conts[c.name] = tree.GenData(r, c.kid, 70, 2)
+		fix(c.kid, src.Conts[c.name])
 		opTerm, opDesc = emit.App("OpReplaceKid", emit.Nat(c.idx), src.ContentTerm(root)), "Find("+c.name+").ReplaceFrom("+src.Desc(root)+")"
 		run = func() error {
 			sel, err := t.b.Root().Find(c.name)
@@ -236,6 +295,7 @@ func c18Step(ctx *core.Ctx, r *gen.Rng, t *c18Target, yang string, universe, bef
 					nrow.Leaves[c.kid.Kids[k].Name] = tree.GenValue(r, c.kid.Kids[k].Leafable())
 				}
 			}
+			fix(c.kid, nrow)
 			id := ""
 			for _, k := range c.kid.Keys {
 				id += nrow.Leaves[c.kid.Kids[k].Name].String() + "\x00"
@@ -256,6 +316,11 @@ func c18Step(ctx *core.Ctx, r *gen.Rng, t *c18Target, yang string, universe, bef
 	default:
 		opName = "upsert"
 		src := tree.Subsample(r, root, universe, 50, 40)
+		if r.Chance(1, 2) {
+			// overlay: existing entries addressed sparsely, new entries, in an order of its own
+			src = tree.GenDataAgainst(r, root, 40+r.Intn(40), 2, before)
+		}
+		fix(root, src)
 		opTerm, opDesc = emit.App("OpUpsert", src.ContentTerm(root)), "root.UpsertFrom("+src.Desc(root)+")"
 		run = func() error { return t.b.Root().UpsertFrom(src.Node(root, nil, "")) }
 	}
